@@ -24,6 +24,7 @@ PROP = {
         ("TestVFC12RateLimitHTTP", (300, 1200)),
         ("TestVFC12RateLimitModel", (20000, 100000)),
         ("TestVFC12Sessions", (300, 1200)),
+        ("TestVFC12LogoutRace", (25, 120)),
     ],
     "shards": (2, 16),
     "workers": (4, 16),
